@@ -29,6 +29,7 @@ import (
 	"strconv"
 	"strings"
 	"sync"
+	"time"
 	"unicode/utf8"
 
 	"github.com/logrange/logrange/api"
@@ -136,6 +137,17 @@ func (e *gExpr) astString() string {
 	var sb strings.Builder
 	e.ast(&sb)
 	return strings.TrimSpace(sb.String())
+}
+
+// parseExpr is lql.ParseExpr with a panic turned into an error (one panicking text must be reported with its input, not
+// kill the harness)
+func parseExpr(text string) (exp *lql.Expression, err error) {
+	defer func() {
+		if r := recover(); r != nil {
+			exp, err = nil, fmt.Errorf("PANIC in lql.ParseExpr: %v", r)
+		}
+	}()
+	return lql.ParseExpr(text)
 }
 
 // the real parser's AST in the same serialisation
@@ -538,7 +550,7 @@ func runWhere(secName string, sec *vh.Section, cases []whereCase, pool []event) 
 			}
 		}
 		ps[i] = p
-		exp, perr := lql.ParseExpr(c.Text)
+		exp, perr := parseExpr(c.Text)
 		if perr != nil || exp == nil {
 			p.skipped = true
 			res.Dist(sec, "parse-error")
@@ -1109,7 +1121,7 @@ func runFiter(c fiterCase, sec *vh.Section) (lines, impls []string, ok bool) {
 	var exp *lql.Expression
 	if c.Text != "" {
 		var err error
-		exp, err = lql.ParseExpr(c.Text)
+		exp, err = parseExpr(c.Text)
 		if err != nil {
 			return nil, nil, false
 		}
@@ -1462,9 +1474,11 @@ func sectionE2E(rng *vh.Rng, extra []e2eCase) {
 	}
 	srv.FlushWait()
 	base := "select from c05 like \"p*\" "
+	// readers only see flushed records: poll (generously — the machine may be heavily loaded) until the unfiltered result is
+	// complete and stable, instead of trusting one fixed sleep
 	all, err := queryAll(srv, base+"limit 1000", 1000)
-	if err != nil || len(all) != len(evs) {
-		srv.FlushWait()
+	for i := 0; i < 300 && (err != nil || len(all) != len(evs)); i++ {
+		time.Sleep(100 * time.Millisecond)
 		all, err = queryAll(srv, base+"limit 1000", 1000)
 	}
 	if err != nil || len(all) != len(evs) {
@@ -1537,7 +1551,7 @@ func sectionE2E(rng *vh.Rng, extra []e2eCase) {
 			defer func() { <-sem }()
 			c := cases[i]
 			// pre-screen in this process: a filter that panics (or is nil) would kill the in-process server's goroutine
-			if exp, perr := lql.ParseExpr(c.Text); perr == nil && exp != nil {
+			if exp, perr := parseExpr(c.Text); perr == nil && exp != nil {
 				var f lql.WhereExpFunc
 				var berr error
 				pmsg := vh.Recover(func() { f, berr = lql.BuildWhereExpFuncByExpression(exp) })
@@ -1574,7 +1588,7 @@ func sectionE2E(rng *vh.Rng, extra []e2eCase) {
 	var lines []string
 	first := make([]int, len(cases))
 	for i, c := range cases {
-		exp, perr := lql.ParseExpr(c.Text)
+		exp, perr := parseExpr(c.Text)
 		if perr != nil || exp == nil {
 			first[i] = -1
 			continue
@@ -1586,7 +1600,7 @@ func sectionE2E(rng *vh.Rng, extra []e2eCase) {
 		if first[i] == -1 {
 			continue
 		}
-		exp, _ := lql.ParseExpr(c.Text)
+		exp, _ := parseExpr(c.Text)
 		first[i] = len(lines)
 		lines = append(lines, "expr "+realAstString(exp))
 		if c.Want != "" {
@@ -1736,7 +1750,7 @@ func replay(path string) {
 		}
 		sec := res.Section("where", "replay", "replay of one recorded text on its recorded events (or the standard pool)")
 		runWhere("where", sec, []whereCase{c}, eventPool())
-		exp, perr := lql.ParseExpr(c.Text)
+		exp, perr := parseExpr(c.Text)
 		fmt.Printf("text: %s\nparse error: %v\n", c.Text, perr)
 		if exp != nil {
 			fmt.Printf("real AST:     %s\nintended AST: %s\n", realAstString(exp), c.WantAst)
